@@ -197,10 +197,8 @@ func (s *Staking) processDoubleSignV5(config *params.YouParams, currentDB *state
 		penaltyAmount := new(big.Int).Div(new(big.Int).Mul(val.Token, new(big.Int).SetUint64(config.PenaltyFractionForDoubleSign)), big.NewInt(100))
 		totalPenalty, affectedRecords, pRecords := doPenalize(config, EvidenceTypeDoubleSign, currentDB, header, val, penaltyAmount, doubleSign.Round)
 
-		var affected int
 		// penalty
 		if totalPenalty.Cmp(bigZero) > 0 {
-			affected++
 			result.affectedValidators = append(result.affectedValidators, &signerAddr)
 			logData := SlashDataV5{
 				Type:         EventTypeDoubleSign,
@@ -222,11 +220,10 @@ func (s *Staking) processDoubleSignV5(config *params.YouParams, currentDB *state
 			}
 		}
 
-		if affected > 0 {
-			result.confirmedEvidences = append(result.confirmedEvidences, evidence)
-		} else {
-			result.deletedEvidences = append(result.deletedEvidences, evidence)
-		}
+		// doPenalize has changed the validator (offline, expelled) whatever the amount taken,
+		// so the evidence must reach the block's slash data: a validator of the block replays
+		// only what is recorded there.
+		result.confirmedEvidences = append(result.confirmedEvidences, evidence)
 
 	case doubleSign.Round > parentHeight:
 		result.pendingEvidences = append(result.pendingEvidences, evidence) // future evidences
